@@ -1414,15 +1414,15 @@ impl<Word, Buf: SafeBuf<Word> + AsMut<[Word]>> WriteWords<Word> for Reverse<Curs
     fn write(&mut self, word: Word) -> Result<(), Self::WriteError> {
         if self.0.pos == 0 {
             Err(BoundedWriteError::OutOfSpace)
-        } else {
+        } else if let Some(target) = self.0.buf.as_mut().get_mut(self.0.pos - 1) {
+            // We use a checked access here because safe code can shrink the buffer behind our
+            // back via `Cursor::buf_mut` (e.g., `cursor.buf_mut().truncate(0)`), which would
+            // break the invariant `pos <= buf.len()`.
+            *target = word;
             self.0.pos -= 1;
-            unsafe {
-                // SAFETY: We maintain the invariant `self.0.pos <= self.0.buf.as_mut().len()`
-                // and we just decreased `self.0.pos` (and made sure that didn't wrap around),
-                // so we now have `self.0.pos < self.0.buf.as_mut().len()`.
-                *self.0.buf.as_mut().get_unchecked_mut(self.0.pos) = word;
-                Ok(())
-            }
+            Ok(())
+        } else {
+            Err(BoundedWriteError::OutOfSpace)
         }
     }
 }
@@ -1472,12 +1472,11 @@ impl<Word: Clone, Buf: SafeBuf<Word>> ReadWords<Word, Stack> for Cursor<Word, Bu
             Ok(None)
         } else {
             self.pos -= 1;
-            unsafe {
-                // SAFETY: We maintain the invariant `self.pos <= self.buf.as_ref().len()`
-                // and we just decreased `self.pos` (and made sure that didn't wrap around),
-                // so we now have `self.pos < self.buf.as_ref().len()`.
-                Ok(Some(self.buf.as_ref().get_unchecked(self.pos).clone()))
-            }
+            // We use a checked access here because safe code can shrink the buffer behind our
+            // back via `Cursor::buf_mut` (e.g., `cursor.buf_mut().truncate(0)`), which would
+            // break the invariant `pos <= buf.len()`. Reading beyond the (shrunk) buffer
+            // reports end of data.
+            Ok(self.buf.as_ref().get(self.pos).cloned())
         }
     }
 
